@@ -1,4 +1,52 @@
+//! C17 monitor (parser part): parse each input with the repo's public parse_command under catch_unwind,
+//! report Ok(Command as JSON) / Err(message) / Panic(location) and the time taken. The index of the input being
+//! parsed is written to stderr first, so that a parent can attribute a process abort (stack overflow).
 use serde_json::{Value, json};
-pub fn run(_input: &Value) -> Value {
-    json!({"error": "not implemented"})
+use snel_db::command::parser::parse_command;
+use std::io::Write;
+use std::sync::Mutex;
+
+static LAST_PANIC: Mutex<Option<String>> = Mutex::new(None);
+
+pub fn run(input: &Value) -> Value {
+    std::panic::set_hook(Box::new(|info| {
+        let loc = info
+            .location()
+            .map(|l| format!("{}:{}", l.file(), l.line()))
+            .unwrap_or_default();
+        *LAST_PANIC.lock().unwrap_or_else(|e| e.into_inner()) = Some(format!("{loc}: {info}"));
+    }));
+    let empty = Vec::new();
+    let inputs = input["inputs"].as_array().unwrap_or(&empty);
+    let want_cmd = input["want_cmd"].as_bool().unwrap_or(true);
+    let mut out = Vec::with_capacity(inputs.len());
+    let stderr = std::io::stderr();
+    for (i, s) in inputs.iter().enumerate() {
+        let text = s.as_str().unwrap_or("").to_string();
+        {
+            let mut e = stderr.lock();
+            let _ = writeln!(e, "I {i}");
+            let _ = e.flush();
+        }
+        let t0 = std::time::Instant::now();
+        let t2 = text.clone();
+        let r = std::panic::catch_unwind(move || parse_command(&t2));
+        let ms = t0.elapsed().as_secs_f64() * 1000.0;
+        let v = match r {
+            Ok(Ok(cmd)) => {
+                if want_cmd {
+                    json!({"r": "ok", "ms": ms, "cmd": serde_json::to_value(&cmd).unwrap_or(Value::Null)})
+                } else {
+                    json!({"r": "ok", "ms": ms})
+                }
+            }
+            Ok(Err(e)) => json!({"r": "err", "ms": ms, "msg": e.to_string()}),
+            Err(_) => {
+                let loc = LAST_PANIC.lock().unwrap_or_else(|e| e.into_inner()).take();
+                json!({"r": "panic", "ms": ms, "loc": loc})
+            }
+        };
+        out.push(v);
+    }
+    json!({"results": out})
 }
